@@ -37,11 +37,11 @@ package transforms
 //@   ensures [C19] s == 64 ==> forall a int, b int :: 0 <= a && a < 64 && 0 <= b && b < 64 ==> same(pixels[a*64+b], lumAt(colorImg, colorImg.Rect.Min.X+b, colorImg.Rect.Min.Y+a))
 //@   ensures [C19] s == 256 ==> forall a int, b int :: 0 <= a && a < 256 && 0 <= b && b < 256 ==> same(pixels[a*256+b], lumAt(colorImg, colorImg.Rect.Min.X+b, colorImg.Rect.Min.Y+a))
 //@   loop 0 invariant 0 <= i && i <= s
-//@   loop 0 invariant s == 64 ==> forall a int, b int :: 0 <= a && a < i && 0 <= b && b < 64 ==> same(pixels[a*64+b], lumAt(colorImg, colorImg.Rect.Min.X+b, colorImg.Rect.Min.Y+a))
-//@   loop 0 invariant s == 256 ==> forall a int, b int :: 0 <= a && a < i && 0 <= b && b < 256 ==> same(pixels[a*256+b], lumAt(colorImg, colorImg.Rect.Min.X+b, colorImg.Rect.Min.Y+a))
+//@   loop 0 invariant [C19] s == 64 ==> forall a int, b int :: 0 <= a && a < i && 0 <= b && b < 64 ==> same(pixels[a*64+b], lumAt(colorImg, colorImg.Rect.Min.X+b, colorImg.Rect.Min.Y+a))
+//@   loop 0 invariant [C19] s == 256 ==> forall a int, b int :: 0 <= a && a < i && 0 <= b && b < 256 ==> same(pixels[a*256+b], lumAt(colorImg, colorImg.Rect.Min.X+b, colorImg.Rect.Min.Y+a))
 //@   loop 1 invariant 0 <= i && i < s && 0 <= j && j <= s
-//@   loop 1 invariant s == 64 ==> forall a int, b int :: 0 <= a && 0 <= b && b < 64 && (a < i || (a == i && b < j)) ==> same(pixels[a*64+b], lumAt(colorImg, colorImg.Rect.Min.X+b, colorImg.Rect.Min.Y+a))
-//@   loop 1 invariant s == 256 ==> forall a int, b int :: 0 <= a && 0 <= b && b < 256 && (a < i || (a == i && b < j)) ==> same(pixels[a*256+b], lumAt(colorImg, colorImg.Rect.Min.X+b, colorImg.Rect.Min.Y+a))
+//@   loop 1 invariant [C19] s == 64 ==> forall a int, b int :: 0 <= a && 0 <= b && b < 64 && (a < i || (a == i && b < j)) ==> same(pixels[a*64+b], lumAt(colorImg, colorImg.Rect.Min.X+b, colorImg.Rect.Min.Y+a))
+//@   loop 1 invariant [C19] s == 256 ==> forall a int, b int :: 0 <= a && 0 <= b && b < 256 && (a < i || (a == i && b < j)) ==> same(pixels[a*256+b], lumAt(colorImg, colorImg.Rect.Min.X+b, colorImg.Rect.Min.Y+a))
 
 //@ func rgb2GrayDefault
 //@   props C19
@@ -50,11 +50,11 @@ package transforms
 //@   ensures [C19] s == 64 ==> forall a int, b int :: 0 <= a && a < 64 && 0 <= b && b < 64 ==> same(pixels[a*64+b], lumAt(colorImg, gconst("bminx", colorImg)+b, gconst("bminy", colorImg)+a))
 //@   ensures [C19] s == 256 ==> forall a int, b int :: 0 <= a && a < 256 && 0 <= b && b < 256 ==> same(pixels[a*256+b], lumAt(colorImg, gconst("bminx", colorImg)+b, gconst("bminy", colorImg)+a))
 //@   loop 0 invariant 0 <= i && i <= s
-//@   loop 0 invariant s == 64 ==> forall a int, b int :: 0 <= a && a < i && 0 <= b && b < 64 ==> same(pixels[a*64+b], lumAt(colorImg, gconst("bminx", colorImg)+b, gconst("bminy", colorImg)+a))
-//@   loop 0 invariant s == 256 ==> forall a int, b int :: 0 <= a && a < i && 0 <= b && b < 256 ==> same(pixels[a*256+b], lumAt(colorImg, gconst("bminx", colorImg)+b, gconst("bminy", colorImg)+a))
+//@   loop 0 invariant [C19] s == 64 ==> forall a int, b int :: 0 <= a && a < i && 0 <= b && b < 64 ==> same(pixels[a*64+b], lumAt(colorImg, gconst("bminx", colorImg)+b, gconst("bminy", colorImg)+a))
+//@   loop 0 invariant [C19] s == 256 ==> forall a int, b int :: 0 <= a && a < i && 0 <= b && b < 256 ==> same(pixels[a*256+b], lumAt(colorImg, gconst("bminx", colorImg)+b, gconst("bminy", colorImg)+a))
 //@   loop 1 invariant 0 <= i && i < s && 0 <= j && j <= s
-//@   loop 1 invariant s == 64 ==> forall a int, b int :: 0 <= a && 0 <= b && b < 64 && (a < i || (a == i && b < j)) ==> same(pixels[a*64+b], lumAt(colorImg, gconst("bminx", colorImg)+b, gconst("bminy", colorImg)+a))
-//@   loop 1 invariant s == 256 ==> forall a int, b int :: 0 <= a && 0 <= b && b < 256 && (a < i || (a == i && b < j)) ==> same(pixels[a*256+b], lumAt(colorImg, gconst("bminx", colorImg)+b, gconst("bminy", colorImg)+a))
+//@   loop 1 invariant [C19] s == 64 ==> forall a int, b int :: 0 <= a && 0 <= b && b < 64 && (a < i || (a == i && b < j)) ==> same(pixels[a*64+b], lumAt(colorImg, gconst("bminx", colorImg)+b, gconst("bminy", colorImg)+a))
+//@   loop 1 invariant [C19] s == 256 ==> forall a int, b int :: 0 <= a && 0 <= b && b < 256 && (a < i || (a == i && b < j)) ==> same(pixels[a*256+b], lumAt(colorImg, gconst("bminx", colorImg)+b, gconst("bminy", colorImg)+a))
 
 //@ func DCT2DHash64
 //@   trusted floating-point DCT; only the frame (transforms the pixel buffer in place, returns 64 coefficients) is used
